@@ -57,30 +57,65 @@ def parseMsg : List String → Option Msg
 def symCode : Sym → Nat
   | .emptyPool => 0 | .nothingAdded => 1 | .needMoreY => 2 | .symmetric => 3 | .needMoreX => 4
 
-def handle (reg : Registry) : List String → Option (Registry × String)
-  | ["reset"] => some ([], "ok")
-  | ["reg", "set", r] => do let r ← parseReg r; let reg' := applyEdit reg (.setRegistry r); some (reg', showReg reg')
-  | ["reg", "register", e] => do let e ← parseEntry e; let reg' := applyEdit reg (.register e); some (reg', showReg reg')
-  | ["reg", "deregister", d] => let reg' := applyEdit reg (.deregister d); some (reg', showReg reg')
+/-- driver state: the committed registry; inside a transaction the branch (`working`) and whether a
+    message of the transaction has failed -/
+structure DS where
+  committed : Registry
+  working : Registry
+  inTx : Bool
+  failed : Bool
+
+def DS.init : DS := ⟨[], [], false, false⟩
+
+/-- the registry the next message sees -/
+def DS.cur (d : DS) : Registry := if d.inTx then d.working else d.committed
+
+/-- a registry message: on the branch inside a transaction, else a one-message transaction -/
+def DS.edit (d : DS) (e : Edit) : DS × String :=
+  match txStep d.cur (.edit e) with
+  | some r => (if d.inTx then { d with working := r } else { d with committed := r, working := r }, showReg r)
+  | none => (d, "bad-op")
+
+/-- an AMM / IBC message through the guards of the current source; `bodyOk` = the harness did not
+    rig the body to fail -/
+def DS.msg (d : DS) (k : Kind) (m : Msg) (bodyOk : Bool) : DS × String :=
+  let out := (handler (σ := Unit) (generated k).guards id (fun w _ => if bodyOk then some w else none) ⟨d.cur, ()⟩ m).1
+  let ok := (txStep d.cur (.msg (generated k).guards m bodyOk)).isSome
+  let ans := match out with
+    | .ok => if k = .transfer && !(generated k).delegates then "lost" else "pass"
+    | .refusedPerm => "refuse prewrite=0"
+    | .failedBody => "bodyfail"
+  (if d.inTx && !ok then { d with failed := true } else d, ans)
+
+def handle (d : DS) : List String → Option (DS × String)
+  | ["reset"] => some (DS.init, "ok")
+  | ["tx", "begin"] => some ({ d with working := d.committed, inTx := true, failed := false }, "ok")
+  | ["tx", "end", sim] => do
+      let sim ← parseBool sim
+      if d.inTx && !d.failed && !sim then
+        some (⟨d.working, d.working, false, false⟩, s!"committed {showReg d.working}")
+      else
+        some (⟨d.committed, d.committed, false, false⟩, s!"rolledback {showReg d.committed}")
+  | ["reg", "set", r] => do let r ← parseReg r; some (d.edit (.setRegistry r))
+  | ["reg", "register", e] => do let e ← parseEntry e; some (d.edit (.register e))
+  | ["reg", "deregister", dn] => some (d.edit (.deregister dn))
   | "msg" :: kind :: rest => do
       let k ← parseKind kind
       let m ← parseMsg rest
-      -- the model handler: guards of the current source, an always-succeeding body
-      let out := (handler (σ := Unit) (generated k).guards id (fun w _ => some w) ⟨reg, ()⟩ m).1
-      let ans := match out with
-        | .ok => if k = .transfer && !(generated k).delegates then "lost" else "pass"
-        | .refusedPerm => "refuse prewrite=0"
-        | .failedBody => "other"
-      some (reg, ans)
+      some (d.msg k m true)
+  | "msgf" :: kind :: rest => do   -- the same message with a body rigged to fail after the guards
+      let k ← parseKind kind
+      let m ← parseMsg rest
+      some (d.msg k m false)
   | ["sym", X, x, Y, y] => do
       let X ← parseNat X; let x ← parseNat x; let Y ← parseNat Y; let y ← parseNat y
-      some (reg, toString (symCode (symmetryState X x Y y)))
+      some (d, toString (symCode (symmetryState X x Y y)))
   | "chk" :: "c12.accepted" :: _tag :: r :: kind :: acc :: rest => do
       let r ← parseReg r; let k ← parseKind kind; let acc ← parseBool acc; let m ← parseMsg rest
-      some (reg, toString (acceptedOK r k m acc))
+      some (d, toString (acceptedOK r k m acc))
   | ["chk", "c12.refused", _tag, acc, same] => do
       let acc ← parseBool acc; let same ← parseBool same
-      some (reg, toString (refusedOK acc same))
+      some (d, toString (refusedOK acc same))
   | _ => none
 
 end Sif.Drv.Perm
